@@ -130,6 +130,17 @@ def generate(rng, tier):
         cases.append(gen_session(rng, tier, small=(relabel(rng, pn, pe, lo=100, hi=140), relabel(rng, gn, ge))))
     for _ in range(220 if tier == 'quick' else 6000):
         cases.append(gen_session(rng, tier))
+    # patterns whose symmetry interchanges parts that are themselves symmetric: what the symmetry analysis finds depends on
+    # the node numbering, so each is taken under several numberings, against itself and against itself plus one node
+    for name in ('two_triangles', 'k33', 'two_paths', 'two_edges_and_two', 'prism', 'tri_pendants', 'cycle6'):
+        for _ in range(6 if tier == 'quick' else 60):
+            n, edges = SPECIAL[name]
+            P = relabel(rng, n, [list(e) for e in edges], lo=100, hi=140)
+            if rng.random() < 0.6:
+                G = relabel(rng, n, [list(e) for e in edges])
+            else:
+                G = relabel(rng, n + 1, [list(e) for e in edges] + [[rng.randrange(n), n]])
+            cases.append({'steps': [{'P': P, 'G': G, 'reuse': rng.random() < 0.3}]})
     rng.shuffle(cases)          # balance the evaluation shards
     return cases
 
